@@ -2918,7 +2918,7 @@ class FileSet:
         df = pd.DataFrame(data).set_index(0)
         columns += list(self.get_placeholders().keys())
         df.columns = columns
-        del df.index.name
+        df.index.name = None
         return df
 
     def write(self, data, file_info, in_background=False, **write_args):
